@@ -29,6 +29,8 @@ inductive Root | global | param | call | alias | viaGlobal
   deriving DecidableEq, Repr
 
 inductive Sync | none | mutex | syncMap | syncMapCasNil | syncMapLoad | once | nilGuardInit | nilGuardNoInit | nilGuardCtor | nilGuardField
+  | appendSpare     -- `append(s, …)` on a slice reachable from shared state: a PLAIN WRITE into the shared backing array whenever cap s > len s
+  | appendClipped   -- `append(s[:n:n], …)` / `append(slices.Clip(s), …)`: cap = len, append reallocates, nothing shared is written
   deriving DecidableEq, Repr
 
 /-- one write to (possibly) shared state found by the translator; `via` = entry point whose parameter leads
@@ -294,7 +296,7 @@ theorem final_agree (k : Cfg) : ∀ (tr : Trace) (σ τ : State), CleanTrace k t
 
 /-! ## reading the generated table -/
 
-inductive RowClass | cache | cacheLoad | inertCas | lazyDecl | lazyCtor | outParam | plain | unread
+inductive RowClass | cache | cacheLoad | inertCas | lazyDecl | lazyCtor | outParam | plain | unread | appendSpare | appendClipped
   deriving DecidableEq, Repr
 
 /-- entry points whose reference parameters are caller-owned, per-call output (`schemas` of
@@ -310,11 +312,14 @@ def rowClass : SharedWrite → RowClass
     | .syncMapCasNil => .inertCas    -- `CompareAndSwap(k, nil, v)`: stores nothing for an absent key
     | .nilGuardInit => .lazyDecl
     | .nilGuardCtor => .lazyCtor
+    | .appendSpare => .appendSpare   -- aliasing through spare capacity: see `appendActs`
+    | .appendClipped => .appendClipped
     | _ => if root = .param && outParamEntries.contains via then .outParam else .plain
 
 /-- the obligation on one row: synchronised, or a nil-guarded re-initialisation of something that is
-    initialised (by its declaration / by the constructor), or per-call output -/
-def rowOK (w : SharedWrite) : Bool := rowClass w != .plain && rowClass w != .unread
+    initialised (by its declaration / by the constructor), or per-call output; an `append` to a shared slice
+    only when the slice is clipped to its length -/
+def rowOK (w : SharedWrite) : Bool := rowClass w != .plain && rowClass w != .unread && rowClass w != .appendSpare
 
 def rowGlobal : SharedWrite → Option String
   | .write _ _ _ _ root _ g _ => if root = .global || root = .viaGlobal then some g else none
@@ -341,6 +346,9 @@ def tableActsFrom (t : List SharedWrite) : Nat → List SharedWrite → List Act
      | .inertCas => []
      | .lazyDecl | .lazyCtor => [Act.lazyInit (rowCell t k w) 1]
      | .outParam => []
+     | .appendClipped => []
+     -- the appended element is stored in the shared backing array and then read back through the new slice
+     | .appendSpare => [Act.write (rowCell t k w) 1, Act.read (rowCell t k w)]
      | _ => [Act.write (rowCell t k w) 1]) ++ tableActsFrom t (k + 1) ws
 
 def tableCacheFrom (t : List SharedWrite) : Nat → List SharedWrite → List Cell
